@@ -26,7 +26,7 @@ MUTATORS = ["norm", "asexp", "asexp_rev", "early", "diff_early", "embed", "at", 
 
 def jobs(tier, seed):
     js = []
-    pools = ["A", "B", "C", "D", "E", "F", "G", "H"]
+    pools = ["A", "B", "C", "D", "E", "F", "G", "H", "I", "J"]
     hists = []
     for pool in pools:
         for t in ("e1", "e2", "e3", "s"):
@@ -46,6 +46,8 @@ def jobs(tier, seed):
             hists.append({"pool": pool, "hist": [["asexp", t], ["asexp", "e1" if t != "e1" else "e2"], ["asexp_rev", t]]})
             hists.append({"pool": pool, "hist": [["mk", "P", "partial_early", t], ["mk", "Q", "diff_early", t], ["q", "P", "q"], ["q", "Q", "p"]]})
             hists.append({"pool": pool, "hist": [["mk", "P", "partial", t], ["q", "P", "q"], ["qasexp", "P"], ["q", "P", "p"]]})
+            hists.append({"pool": pool, "hist": [["mk", "P", "diff_early", t], ["qat", "P", "q"]]})
+            hists.append({"pool": pool, "hist": [["mk", "P", "diff_early", t], ["mk", "Q", "diff", t], ["qat", "P", "q"], ["qat", "Q", "q"], ["qat", "P", "p"]]})
             hists.append({"pool": pool, "hist": [["norm", t], ["asexp", t]], "keep": ["asexp", t]})
             hists.append({"pool": pool, "hist": [["asexp", t], ["norm", t], ["at", t, "q"]], "keep": ["norm", t]})
     if tier == "quick":
@@ -92,9 +94,14 @@ def must_be_true(name, outs, idx):
     return VC(name, z3.BoolVal(True), judge, {})
 
 
-def same_text(name, outs, i, j):
+def same_text(name, outs, i, j, concrete_too=False):
     a, b = outs[i], outs[j]
     if a["kind"] == b["kind"] == "value" and a["value"] == b["value"]:
+        if concrete_too:
+            def cj(val, couts):
+                x, y = couts[i], couts[j]
+                return None if (x["kind"] == y["kind"] and x.get("value") == y.get("value")) else f"{name}: {str(x.get('value'))[:140]} vs {str(y.get('value'))[:140]}"
+            return VC(name + ":real-number-formatting", z3.BoolVal(True), cj, {"concrete_only": True})
         return VC(name + ":identical", None, None, {"failed": False})
 
     def judge(val, couts):
@@ -151,7 +158,9 @@ def vcs(spec, ctx, outs):
         res.append(must_be_true("point-still-equals-and-prints-as-original", outs, 2))
         return res
     for g in range(0, len(outs), 7):
-        res.append(same_text("operand-prints-as-fresh-copy", outs, g, g + 1))
+        res.append(same_text("operand-prints-as-fresh-copy", outs, g, g + 1, concrete_too=(spec["pool"] == "J" and g == 0)))
+        if spec["pool"] == "J" and g == 0:
+            res.append(same_text("operand-prints-as-fresh-copy", outs, g, g + 1))
         res.append(must_be_true("operand-equals-and-hashes-as-fresh-copy", outs, g + 2))
         v = common.agree_vc("operand-evaluates-like-fresh-copy", ctx, outs, g + 3, g + 4, twin=bool(spec.get("twin")) and g == 0)
         res.append(v if v is not None else VC("operand-evaluates-like-fresh-copy:identical", None, None, {"failed": False}))
